@@ -82,6 +82,7 @@ func ZZ_C18_NonBlockingLive(q, nw, entries int) {
 //	scenario 0: space appears (the sender resumes)      -> the waiting call succeeds and its payload is sent
 //	scenario 1: the caller's context is already cancelled -> an error transmits nothing, success transmits the payload
 //	scenario 2: the caller's context is cancelled while the call waits -> ctx error, nothing transmitted
+//	scenario 4: Close is pending (it waits for the stalled sender) when the caller's context ends -> released at once
 //	scenario 3: Close arrives while the call waits       -> an error is non-nil and nothing of that payload is transmitted
 func ZZ_C18_Blocking(q, scenario, entry int) {
 	tr := newZZTransport()
@@ -97,7 +98,7 @@ func ZZ_C18_Blocking(q, scenario, entry int) {
 			n, err := ch.Write1([]byte{byte(k + 1), 0x33})
 			if err != nil {
 				// only a Close issued while this call was waiting may fail it
-				vrt.Assert(scenario == 3 && err == zzErrUserClose && n == 0, "c18-blocking-fails-only-on-close")
+				vrt.Assert((scenario == 3 || scenario == 4) && err == zzErrUserClose && n == 0, "c18-blocking-fails-only-on-close")
 				return
 			}
 			vrt.Assert(n == 2, "c18-blocking-accepts-when-space")
@@ -118,7 +119,7 @@ func ZZ_C18_Blocking(q, scenario, entry int) {
 	returned := false
 	vrt.Go("waiter", func() {
 		useEntry := entry
-		if scenario == 1 || scenario == 2 {
+		if scenario == 1 || scenario == 2 || scenario == 4 {
 			useEntry = 2 + entry%2 // the Ctx* variants take the caller's context
 		}
 		wn, werr = zzCall(ch, useEntry, ctx, []byte{0x7f, 0x44})
@@ -143,6 +144,15 @@ func ZZ_C18_Blocking(q, scenario, entry int) {
 		vrt.Assert(returned && werr != nil && wn == 0, "c18-context-end-releases-the-call")
 		vrt.Assert(werr == context.Canceled, "c18-context-error-returned")
 	}
+	if scenario == 4 {
+		// Close is called while the call waits; it stays pending (it waits for the stalled sender), and then the
+		// caller's context ends: the call is released now, it does not wait for Close to complete
+		vrt.Go("closer", func() { ch.Close(zzErrUserClose) })
+		vrt.QuiesceIdle()
+		cancel()
+		vrt.QuiesceIdle()
+		vrt.Assert(returned && werr != nil && wn == 0, "c18-context-end-releases-the-call")
+	}
 	close(tr.gate) // the sender resumes
 	dead = vrt.Quiesce()
 	vrt.Assert(!dead, "c18-everything-finishes")
@@ -160,7 +170,7 @@ func ZZ_C18_Blocking(q, scenario, entry int) {
 		vrt.Reach("c18-waiter-failed")
 	} else {
 		vrt.Assert(wn == 2, "c18-accepted-call-reports-length")
-		if scenario != 3 {
+		if scenario != 3 && scenario != 4 {
 			vrt.Assert(found, "c18-accepted-call-is-transmitted")
 		}
 		vrt.Reach("c18-waiter-succeeded")
